@@ -22,7 +22,9 @@ REGISTRY = {
         trusted=["numpy: nditer yields every element once in the requested order; frombuffer(tobytes) is the identity; make_memmap maps nbytes at offset; multiply.reduce(shape) is the element count",
                  "file handle position model (tell/read/write/seek)"],
         assumptions=["itemsize in {1, 2, 4, 8, 16} for the chunked read loop (keeps the arithmetic linear)", "_read_bytes consumes exactly n bytes (C14)",
-                     "automatic memmapping of large arrays passed to workers (loky reducers) is not under contract: partial decision, framing only"],
+                     "of the worker-side memmapping only _reduce_memmap_backed (the pickling reduction of views on a memmap) is under contract, shape-bounded to 2-d views with strides that are multiples of the item size; "
+                     "the loky reducers, temporary-file management and the forward reducer's size threshold are not",
+                     "non-seekable... (n/a)" if False else "numpy array class set: the pickler wraps exactly ndarray, memmap and matrix"],
         undecided_clauses=["dtype / endianness semantics, object arrays, subclasses and worker-side memmapping end to end are numpy's / loky's; only covered by the bounded native grid"],
     ),
     "C16": dict(
@@ -247,8 +249,11 @@ MANIFEST_TEXT = {
         text="Payload framing arithmetic proved for all positions and sizes: write_array stores pad = 16 - ((pos + 1) mod 16) in one byte (1 <= pad <= 16) followed by pad filler bytes so "
              "that the data starts 16-byte aligned, then exactly nbytes of data (loop invariant over the chunks); read_array consumes exactly 1 + pad + count*itemsize bytes (chunk loop invariant), "
              "transposes back exactly for Fortran order; read_mmap maps at exactly that offset, forwards the order, downgrades 'w+' and leaves the handle after the payload; a lemma shows writer and "
-             "reader offsets coincide and are aligned; _create_array_wrapper: 'F' iff purely Fortran-contiguous, memmap allowed iff raw file and no object dtype; read dispatch.",
-        note="Partial decision (framing only): numpy is assumed and exercised by a bounded native grid in an overlay venv. Known finding K7: default load converts non-native endianness.",
+             "reader offsets coincide and are aligned; _create_array_wrapper: 'F' iff purely Fortran-contiguous, memmap allowed iff raw file and no object dtype; read dispatch and "
+             "restoration of the dumped array class with or without __array_prepare__; byte-order conversion only for arrays with no native-order field; _reduce_memmap_backed: every element "
+             "(i, j) of a 2-d view on a memmap is re-read in the worker from the same file position and never outside the mapped buffer (symbolic shape, strides of either sign, item size, offsets; "
+             "nonlinear arithmetic through checked stepping-stone lemmas).",
+        note="Partial decision (framing only): numpy is assumed and exercised by a bounded native grid in an overlay venv. Known findings K7 (default load converts non-native endianness), K9 (item size 0), K10 (copy-on-write memmaps re-opened from the file).",
     ),
     "C16": dict(text='_retrieve: when the head job is finished its results are yielded with no blocking call on that path and without looking at later jobs; results in item order; _register_outcome enqueues an unordered tracker exactly once on the pending->final transition under the lock; GeneratorExit at any yield sets the flags, aborts before tearing down and re-establishes the quiescent state; _reset_run_tracking raises RuntimeError iff already running, tested and set under the lock before any counter is touched; stale callbacks are ignored.', note='Wall-clock promptness and GC timing are not decided.'),
     "C09": dict(text="dispatch_one_batch pulls from the input only with the lock held, only when the look-ahead queue is empty, at most batch_size*n_jobs items per call, and nothing once it has seen the abort flag; the lock invariant bounds the look-ahead by batch_size*n_jobs; a completion callback dispatches at most one further batch; pre_dispatch='all' clears the lazy iterator; eval_ applies only whitelisted operators to constants (structural recursion with its own contract as induction hypothesis).", note="The clause 'no further items after a failure' is undecided across threads (flag read outside the lock)."),
